@@ -41,4 +41,43 @@ let run (input : string) (obs : string) : string * string =
              else "fail:names-not-returned-position-by-position")
           else "fail:valid-batch-rejected") in
     (model, verdict)
+  | "maptree" ->
+    let known = ref true in
+    let p_sub () = match next t with
+      | "I" -> let s = bytes_tok t in Some (Sql.ISid (nid, s)), "I " ^ hx s
+      | "S" -> let n = bytes_tok t in let o = bytes_tok t in let r = bytes_tok t in
+        if not (List.mem n state.names) then known := false;
+        Some (Sql.ISet (n, (nid, o), r)), Printf.sprintf "S %s %s %s" (hx n) (hx o) (hx r)
+      | "-" -> None, "-"
+      | x -> failwith ("maptree subject " ^ x) in
+    let rec p_tree () =
+      expect t "T";
+      let ty = int_tok t in
+      let s, _ = p_sub () in
+      let nc = int_tok t in
+      let cs = List.init nc (fun _ -> p_tree ()) in
+      Mapping.INode (n_of_int ty, s, cs) in
+    let it = p_tree () in
+    let f_asub = function
+      | None -> "-"
+      | Some (Mapping.ASid s) -> "I " ^ hx s
+      | Some (Mapping.ASet (n, o, r)) -> Printf.sprintf "S %s %s %s" (hx n) (hx o) (hx r) in
+    let rec f_tree = function Mapping.ANode (ty, s, cs) ->
+      String.concat " " (Printf.sprintf "T %d %s %d" (int_of_n ty) (f_asub s) (List.length cs) :: List.map f_tree cs) in
+    let model = (match Mapping.coq_ToTree state.names state.db it with
+        | RErr e -> Printf.sprintf "err %d" (int_of_nat (Api.status_of e))
+        | ROk a -> "ok " ^ f_tree a) in
+    (* oracle, independent of the model: the tree in names that went in is the tree that comes out; names that were
+       never written have no string to return, so only trees over written names are judged *)
+    let written = not (List.exists (fun w -> String.length w > 30 && String.sub w 0 29 = "h6e657665722d7772697474656e2d") (words input)) in
+    let verdict =
+      if not !known then (if obs = "panic" then "fail:mapper-panicked" else "na")
+      else if not written then (if obs = "panic" then "fail:mapper-panicked" else "na")
+      else
+        let want = "ok " ^ String.concat " " (List.tl (words input)) in
+        if obs = want then "pass"
+        else if String.length obs >= 2 && String.sub obs 0 2 = "ok" then "fail:tree-names-not-returned-node-by-node"
+        else if obs = "panic" then "fail:mapper-panicked"
+        else "fail:valid-tree-rejected" in
+    (model, verdict)
   | x -> failwith ("MAP: unknown op " ^ x)
